@@ -1,4 +1,5 @@
 """C15 - both reader generations and both file formats agree on structure content."""
+import collections
 import math
 import os
 import random
@@ -213,11 +214,17 @@ def abstract_map(rows):
     return out, order
 
 
+ResidueAuthLike = collections.namedtuple("ResidueAuthLike", "chain number icode name")
+
+
 def v1_map(structure):
     out = {}
     objs = {}
     for r in structure.residues:
         a = r.auth
+        if a is None:
+            # label identifiers only
+            a = ResidueAuthLike(r.label.chain, r.label.number, None, r.label.name)
         k = (a.chain, a.number, a.icode)
         out[k] = {"name": a.name, "atoms": {x.name: (x.x, x.y, x.z) for x in r.atoms}}
         objs[k] = r
@@ -280,6 +287,13 @@ def run_case(case, rec):
         st2c = tertiary_v2.Structure(parser_v2.parse_cif_atoms(cif_text))
         readings["v2-pdb"], objs["v2-pdb"] = v2_map(st2p)
         readings["v2-cif"], objs["v2-cif"] = v2_map(st2c)
+        if not any(r["icode"] for r in rows) and int(core.chash(desc)[2:4], 16) % 3 == 0:
+            # the same table as an mmCIF file with label identifiers only (the auth_* items are optional): chain =
+            # label_asym_id, number = label_seq_id - two more readings, judged like the others
+            lab_text = emit.emit_cif(rows, label_seq="auth", drop_cols=("auth_seq_id", "auth_comp_id", "auth_asym_id", "auth_atom_id"))
+            readings["v1-cif-label-only"], objs["v1-cif-label-only"] = v1_map(emit.read_text(lab_text, ".cif"))
+            readings["v2-cif-label-only"], objs["v2-cif-label-only"] = v2_map(tertiary_v2.Structure(parser_v2.parse_cif_atoms(lab_text)))
+            rec.count("note:label-only-readings")
     except Exception as e:
         import traceback
 
